@@ -29,6 +29,8 @@ THEOREMS = [
     "C18_slice_value",
     "C18_slice_reuse",
     "C18_slice_raise_effect",
+    "C18_restart_stable",
+    "C18_restart_witness",
 ]
 RULE = (
     "seeded histories of operator expressions on real output channels / single-output nodes: each of the 30 operator "
@@ -229,7 +231,7 @@ class _Gen:
         return _steer_eval(oval, op["op"], avals)
 
     def push(self, op, res=None):
-        if op["op"] == "reload":
+        if op["op"] in ("reload", "restart"):
             self.ops.append(op)
             self.op_val.append(None)
             return
@@ -299,10 +301,12 @@ class _Gen:
             best = ({"op": "bool", "owner": owner["ref"], "owner_form": "channel", "operands": []}, None)
         return best
 
-    def step(self):
+    def step(self, p_repeat=0.2):
         rng = self.rng
-        real = [j for j, o in enumerate(self.ops) if o["op"] != "reload"]
+        real = [j for j, o in enumerate(self.ops) if o["op"] not in ("reload", "restart")]
         r = rng.random()
+        if p_repeat > 0.2:
+            r = 0.03 + 0.2 * rng.random() if rng.random() < p_repeat else 0.23 + 0.77 * rng.random()
         if real and r < 0.03:
             self.push({"op": "reload"})
         elif real and r < 0.23:
@@ -328,7 +332,7 @@ class _Gen:
             self.push(op, res)
 
 
-def gen_history(rng, n_ops):
+def gen_history(rng, n_ops, restart=False):
     g = _Gen(rng)
     g.src(rng.choice(SEQS), "wf")
     g.src(rng.choice(INTS), "wf")
@@ -343,6 +347,11 @@ def gen_history(rng, n_ops):
             g.src(rng.choice(INTS), "free")
     for _ in range(n_ops):
         g.step()
+    if restart:
+        # save, new interpreter session, load; then mostly the same expressions again
+        g.push({"op": "restart"})
+        for _ in range(max(4, n_ops // 2)):
+            g.step(p_repeat=0.7)
     return {"kind": "history", "sources": g.sources, "ops": g.ops}
 
 
@@ -392,10 +401,14 @@ def _sweep_case(rng, d):
 
 
 def gen_cases(rng, tier):
-    n_hist = 260 if tier == "quick" else 4000
+    n_hist = 260 if tier == "quick" else 10000
     for i in range(n_hist):
         c = gen_history(rng, rng.randint(4, 14 if tier == "quick" else 24))
         c["id"] = f"{tier[0]}{i}"
+        yield c
+    for i in range(8 if tier == "quick" else 60):
+        c = gen_history(rng, rng.randint(6, 14), restart=True)
+        c["id"] = f"{tier[0]}r{i}"
         yield c
     n_pairs = 4 if tier == "quick" else 30
     k = 0
@@ -460,6 +473,15 @@ def corpus():
                    {"op": "neg", "owner": ["src", 2], "owner_form": "node", "operands": []},
                    {"op": "neg", "owner": ["src", 0], "owner_form": "node", "operands": []},
                    {"op": "neg", "owner": ["src", 3], "owner_form": "node", "operands": []}]}
+    # KF-C18-3: the same expressions again after save / new interpreter session / load
+    yield {"kind": "history", "id": "c-restart",
+           "sources": [{"value": "3", "ctx": "wf", "ran": True}, {"value": "[1, 2]", "ctx": "wf", "ran": True}],
+           "ops": [{"op": "add", "owner": ["src", 0], "owner_form": "node", "operands": [["raw", "1"]]},
+                   {"op": "getitem", "owner": ["src", 1], "owner_form": "node", "operands": [["ref", ["op", 0], "node"]]},
+                   {"op": "restart"},
+                   {"op": "add", "owner": ["src", 0], "owner_form": "node", "operands": [["raw", "1"]]},
+                   {"op": "neg", "owner": ["op", 0], "owner_form": "node", "operands": []},
+                   {"op": "len", "owner": ["src", 1], "owner_form": "node", "operands": []}]}
     # slicing with a channel component: closed (reused), and the open-ended forms (KF-C18-2)
     yield {"kind": "history", "id": "c-slice",
            "sources": [{"value": "[0, 1, 2, 3, 4, 5]", "ctx": "wf", "ran": True}, {"value": "2", "ctx": "wf", "ran": True}],
@@ -627,92 +649,151 @@ def _hx(s: str) -> str:
     return s.encode().hex() or "-"
 
 
-def run_impl(case):
-    variant = _variant()
-    if case["kind"] == "malformed":
-        return {"obs": list(case["expect"]), "variant": variant, "ops": [], "stats": {"malformed": 1}}
-    import pickle
+PROBE = ("probe_owner__user_input", "Add", ("int", "1"))  # a fixed key, to see whether labels depend on the session
 
+
+def _probe_label():
+    """the label the library gives to a fixed expression on a fresh parentless node (independent of any case)"""
     import pyiron_workflow.nodes.standard as std
-    from pyiron_workflow import Workflow
-    from pyiron_workflow.channels import NOT_DATA
+    from pyiron_workflow.nodes.standard import Add
 
-    _install_hook()
-    wfs = {"wf": Workflow("w", autoload=None), "wf2": Workflow("w2", autoload=None)}
-    par_id = {"wf": "0", "wf2": "1", "free": "-"}
-    src_nodes, src_vals, src_ctx = [], [], []
-    for i, s in enumerate(case["sources"]):
-        v = _lit(s["value"])
-        n = std.UserInput(v, label=s.get("label") or f"s{i}", parent=wfs.get(s["ctx"]))
-        n.recovery = None
-        if s["ran"]:
-            n.run()
-        src_nodes.append(n)
-        src_vals.append(v)
-        src_ctx.append(s["ctx"])
-    src_info = [[par_id[c], n.outputs.user_input.scoped_label, n.label] for c, n in zip(src_ctx, src_nodes)]
-    inj_nodes: list = []  # every node made by an expression, in creation order (= the model's node ids)
-    inj_ctx: list = []
-    inj_exp: list = []  # expected value of node k: ("val", v) | ("exc", name) | None (undefined)
-    index_of: dict[int, int] = {}
-    op_node: list = []  # op index -> k of its result node | None
-    obs, rec = [], []
-    stats: dict = {}
+    n = std.UserInput(0, label="probe_owner")
+    return n.outputs.user_input._get_injection_label(Add, 1)
 
-    def bump(key, n=1):
-        stats[key] = stats.get(key, 0) + n
 
-    def count(ctx):
-        return str(len(wfs[ctx].children)) if ctx in wfs else "-"
+class _Run:
+    """the state of one history on the real objects; picklable as a whole, so that it can move to a new
+    interpreter session (op `restart`)"""
 
-    def resolve(ref):
+    PAR_ID = {"wf": "0", "wf2": "1", "free": "-"}
+
+    def __init__(self, case):
+        import pyiron_workflow.nodes.standard as std
+        from pyiron_workflow import Workflow
+
+        self.wfs = {"wf": Workflow("w", autoload=None), "wf2": Workflow("w2", autoload=None)}
+        self.src_nodes, self.src_vals, self.src_ctx = [], [], []
+        for i, s in enumerate(case["sources"]):
+            v = _lit(s["value"])
+            n = std.UserInput(v, label=s.get("label") or f"s{i}", parent=self.wfs.get(s["ctx"]))
+            n.recovery = None
+            if s["ran"]:
+                n.run()
+            self.src_nodes.append(n)
+            self.src_vals.append(v)
+            self.src_ctx.append(s["ctx"])
+        self.src_info = [[self.PAR_ID[c], n.outputs.user_input.scoped_label, n.label]
+                         for c, n in zip(self.src_ctx, self.src_nodes)]
+        self.inj_nodes: list = []  # every node made by an expression, in creation order (= the model's node ids)
+        self.inj_ctx: list = []
+        self.inj_exp: list = []  # expected value of node k: ("val", v) | ("exc", name) | None (undefined)
+        self.op_node: list = []  # op index -> k of its result node | None
+        self.obs: list = []
+        self.rec: list = []
+        self.stats: dict = {}
+        self.restarted = False
+        self.hash_variant = None
+
+    # -- helpers
+    def bump(self, key, n=1):
+        self.stats[key] = self.stats.get(key, 0) + n
+
+    def count(self, ctx):
+        return str(len(self.wfs[ctx].children)) if ctx in self.wfs else "-"
+
+    def index_of(self, node):
+        for k, n in enumerate(self.inj_nodes):
+            if n is node:
+                return k
+        return None
+
+    def resolve(self, ref):
         """(object in node form, channel, expected value, identity, model token, context)"""
         if ref[0] == "src":
-            i = ref[1] % len(src_nodes)
-            n = src_nodes[i]
-            return n, n.outputs.user_input, ("val", src_vals[i]), ("src", i), f"c{i}", src_ctx[i]
+            i = ref[1] % len(self.src_nodes)
+            n = self.src_nodes[i]
+            return n, n.outputs.user_input, ("val", self.src_vals[i]), ("src", i), f"c{i}", self.src_ctx[i]
         j = ref[1]
-        if 0 <= j < len(op_node) and op_node[j] is not None:
-            k = op_node[j]
-            n = inj_nodes[k]
-            return n, n.channel, inj_exp[k], ("node", k), f"n{k}", inj_ctx[k]
-        return resolve(["src", 0])
+        if 0 <= j < len(self.op_node) and self.op_node[j] is not None:
+            k = self.op_node[j]
+            n = self.inj_nodes[k]
+            return n, n.channel, self.inj_exp[k], ("node", k), f"n{k}", self.inj_ctx[k]
+        return self.resolve(["src", 0])
 
-    def register(made, ctx):
-        for m in made:
-            m.recovery = None
-            index_of[id(m)] = len(inj_nodes)
-            inj_nodes.append(m)
-            inj_ctx.append(ctx)
-            inj_exp.append(None)
+    def quiet(self):
+        for w in self.wfs.values():
+            for ch in w.children.values():
+                ch.recovery = None
+        for n in self.src_nodes + self.inj_nodes:
+            n.recovery = None
 
-    for op in case["ops"]:
+    # -- pickling of the whole state (identities between the lists and the children tables are preserved)
+    def dumps(self):
+        import pickle
+
+        return pickle.dumps({k: v for k, v in self.__dict__.items()})
+
+    def loads(self, blob):
+        import pickle
+
+        self.__dict__.update(pickle.loads(blob))
+        self.quiet()
+
+    # -- the ops
+    def reload(self):
+        self.op_node.append(None)
+        try:
+            self.loads(self.dumps())
+        except Exception as e:  # noqa: BLE001
+            self.obs.append(f"noreload {type(e).__name__}")
+            self.rec.append({"d": "reload", "injected": False, "exp": None, "raised": type(e).__name__})
+            return
+        self.obs.append(f"reload {self.count('wf')} {self.count('wf2')}")
+        self.rec.append({"d": "reload", "injected": False, "exp": None, "raised": None, "line": "reload"})
+        self.bump("op:reload")
+
+    def restart(self, rest):
+        """save everything, start a new interpreter with another hash salt, load, and run the remaining ops there"""
+        import json
+        import os
+        import subprocess
+        import sys
+
+        if self.restarted:  # (only in hand-written cases) already in the second session
+            return self.reload()
+        self.op_node.append(None)
+        try:
+            blob = self.dumps()
+        except Exception as e:  # noqa: BLE001
+            self.obs.append(f"noreload {type(e).__name__}")
+            self.rec.append({"d": "restart", "injected": False, "exp": None, "raised": type(e).__name__})
+            return False
+        with open("c18_state.pckl", "wb") as f:
+            f.write(blob)
+        with open("c18_rest.json", "w") as f:
+            json.dump(rest, f)
+        env = dict(os.environ)
+        env["PYTHONHASHSEED"] = "4242" if os.environ.get("PYTHONHASHSEED") != "4242" else "2424"
+        p = subprocess.run([sys.executable, "-c", "from pwh import c18; c18._child_main()"], env=env,
+                           capture_output=True, text=True, timeout=300)
+        if p.returncode != 0:
+            raise RuntimeError("C18 child session failed: " + p.stderr[-1500:])
+        out = json.loads(p.stdout.splitlines()[-1])
+        self.hash_variant = "stable" if out["probe"] == _probe_label() else "salted"
+        self.obs.append(f"restart {self.count('wf')} {self.count('wf2')}")
+        self.rec.append({"d": "restart", "injected": False, "exp": None, "raised": None, "line": "restart"})
+        self.bump("op:restart")
+        self.obs += out["obs"]
+        self.rec += out["rec"]
+        for k, v in out["stats"].items():
+            self.bump(k, v)
+        return True
+
+    def op(self, op):
+        from pyiron_workflow.channels import NOT_DATA
+
         d = op["op"]
-        if d == "reload":
-            op_node.append(None)
-            try:
-                new = {c: pickle.loads(pickle.dumps(w)) for c, w in wfs.items()}
-            except Exception as e:  # noqa: BLE001
-                obs.append(f"noreload {type(e).__name__}")
-                rec.append({"d": d, "injected": False, "exp": None, "raised": type(e).__name__, "reload": False})
-                continue
-            wfs = new
-            for i, c in enumerate(src_ctx):
-                if c in wfs:
-                    src_nodes[i] = wfs[c].children[src_nodes[i].label]
-            index_of.clear()
-            for k, c in enumerate(inj_ctx):
-                if c in wfs:
-                    inj_nodes[k] = wfs[c].children[inj_nodes[k].label]
-                index_of[id(inj_nodes[k])] = k
-            for w in wfs.values():
-                for ch in w.children.values():
-                    ch.recovery = None
-            obs.append(f"reload {count('wf')} {count('wf2')}")
-            rec.append({"d": d, "injected": False, "exp": None, "raised": None, "reload": True, "line": "reload"})
-            bump("op:reload")
-            continue
-        onode, ochan, oexp, oid, otok, ctx = resolve(op["owner"])
+        onode, ochan, oexp, oid, otok, ctx = self.resolve(op["owner"])
         x = onode if op["owner_form"] == "node" else ochan
         args, arg_exp, arg_ids, arg_toks, flags = [], [], [], [], ""
         for o in op["operands"]:
@@ -724,7 +805,7 @@ def run_impl(case):
                 arg_toks.append("r:" + ":".join(_hx(s) for s in (type(v).__qualname__, str(v), repr(v))))
                 flags += "N" if v is None else "V"
             else:
-                n2, c2, e2, id2, t2, ctx2 = resolve(o[1])
+                n2, c2, e2, id2, t2, ctx2 = self.resolve(o[1])
                 if ctx2 != ctx:  # operand from another parent: use the owner itself
                     n2, c2, e2, id2, t2 = onode, ochan, oexp, oid, otok
                 args.append(n2 if o[2] == "node" else c2)
@@ -743,9 +824,9 @@ def run_impl(case):
                 exp = ("exc", type(e).__name__)
         # a failed pull of an invalid expression leaves the *workflow* marked failed (C06's subject); clear the flag
         # as a user would, so that one invalid expression does not shadow the next expressions' values
-        for w in wfs.values():
+        for w in self.wfs.values():
             w.failed = False
-        before = count(ctx)
+        before = self.count(ctx)
         raised = None
         node = None
         _CREATED.clear()
@@ -756,7 +837,7 @@ def run_impl(case):
         made = list(_CREATED)
         _CREATED.clear()
         r: dict = {"d": d, "ctx": ctx, "expr": [ctx, list(oid), d, [list(a) for a in arg_ids]],
-                   "toks": arg_toks, "raised": raised, "n_made": len(made),
+                   "toks": arg_toks, "raised": raised, "n_made": len(made), "session": int(self.restarted),
                    "exp": None if exp is None else [exp[0], exp[1] if exp[0] == "exc" else repr(exp[1])],
                    "count_before": before}
         if d == "slice":
@@ -765,43 +846,49 @@ def run_impl(case):
             nones = [e is not None and e[0] == "val" and e[1] is None for e in arg_exp]
             seen = [flags[0] in "NU", flags[1] == "N", flags[2] in "NU"]
             r["open_ended"] = bool(nones[1] or (nones[0] and not nones[2]) or seen[1] or (seen[0] and not seen[2]))
-        register(made, ctx)
-        r["count_after"] = count(ctx)
+        for m in made:
+            m.recovery = None
+            self.inj_nodes.append(m)
+            self.inj_ctx.append(ctx)
+            self.inj_exp.append(None)
+        r["count_after"] = self.count(ctx)
         if node is None and not made:
             # the expression raised without making any node
             r["injected"] = False
-            obs.append(f"noinject {raised}")
-            rec.append(r)
-            op_node.append(None)
-            continue
+            self.obs.append(f"noinject {raised}")
+            self.rec.append(r)
+            self.op_node.append(None)
+            return
         r["injected"] = True
+        got = None
         if d == "slice":
             r["line"] = " ".join(["slice", otok, *arg_toks, flags])
             g = node if node is not None else (made[-1] if type(made[-1]).__name__ == "GetItem" else None)
             if g is None:
                 # the new Slice node raised while auto-running: GetItem was never reached
-                ks = index_of[id(made[0])]
+                ks = self.index_of(made[0])
                 r.update({"k": None, "ks": ks, "new": 1, "cls": "-"})
-                obs.append(f"slice {ks} 1 - - {count(ctx)}")
+                self.obs.append(f"slice {ks} 1 - - {self.count(ctx)}")
                 got = ("exc", raised)
                 result_new = True
             else:
-                snode = g.inputs.item.connections[0].owner
-                ks, k = index_of.get(id(snode)), index_of.get(id(g))
+                conns = g.inputs.item.connections
+                snode = conns[0].owner if conns else None  # None: no Slice node was made for the slice
+                ks, k = self.index_of(snode) if snode is not None else "-", self.index_of(g)
                 news, new = int(any(m is snode for m in made)), int(any(m is g for m in made))
                 r.update({"k": k, "ks": ks, "new": new, "news": news, "cls": type(g).__name__})
-                obs.append(f"slice {ks} {news} {k} {new} {count(ctx)}")
-                node, result_new, got = g, bool(new), None
+                self.obs.append(f"slice {ks} {news} {k} {new} {self.count(ctx)}")
+                node, result_new = g, bool(new)
         else:
             r["line"] = " ".join(["inj", otok, d, *arg_toks])
             if node is None:
                 node = made[-1]  # created, then raised while auto-running
-            k = index_of.get(id(node))
+            k = self.index_of(node)
             new = int(any(m is node for m in made))
             r.update({"k": k, "new": new, "cls": type(node).__name__})
-            obs.append(f"node {k} {type(node).__name__} {new} {count(ctx)} {','.join(node.inputs.labels)}")
-            result_new, got = bool(new), None
-        op_node.append(r["k"])
+            self.obs.append(f"node {k} {type(node).__name__} {new} {self.count(ctx)} {','.join(node.inputs.labels)}")
+            result_new = bool(new)
+        self.op_node.append(r["k"])
         # the value, evaluated once per node (at its creation)
         if result_new:
             if got is None:
@@ -810,23 +897,59 @@ def run_impl(case):
                 else:
                     try:
                         got = ("val", node.pull())
-                        bump("pulled")
+                        self.bump("pulled")
                     except Exception as e:  # noqa: BLE001
                         got = ("exc", type(e).__name__)
             r["got"] = [got[0], got[1] if got[0] == "exc" else repr(got[1])]
             if exp is not None:
                 r["value_ok"] = (got[0] == exp[0]) and (got[1] == exp[1] if got[0] == "exc" else _same(got[1], exp[1]))
-                bump("cmp")
-                bump(f"cmp:{exp[0]}")
+                self.bump("cmp")
+                self.bump(f"cmp:{exp[0]}")
             # downstream expectations are only defined on top of a value the node really holds
             if r["k"] is not None:
-                inj_exp[r["k"]] = exp if (exp is not None and exp[0] == "val" and r.get("value_ok")) else None
-            bump(f"res:{got[0]}")
-        bump(f"op:{d}")
-        bump(f"ctx:{ctx}")
-        bump(f"new:{int(result_new)}")
-        rec.append(r)
-    return {"obs": obs, "variant": variant, "ops": rec, "stats": stats, "src": src_info}
+                self.inj_exp[r["k"]] = exp if (exp is not None and exp[0] == "val" and r.get("value_ok")) else None
+            self.bump(f"res:{got[0]}")
+        self.bump(f"op:{d}")
+        self.bump(f"ctx:{ctx}")
+        self.bump(f"new:{int(result_new)}")
+        self.rec.append(r)
+
+    def run_ops(self, ops):
+        for i, op in enumerate(ops):
+            if op["op"] == "reload":
+                self.reload()
+            elif op["op"] == "restart":
+                if self.restart(ops[i + 1:]) is True:
+                    return  # the rest ran in the other session
+            else:
+                self.op(op)
+
+
+def _child_main():
+    """second interpreter session of a `restart` case: load the state, run the remaining ops, report as JSON"""
+    import json
+
+    _install_hook()
+    run = _Run.__new__(_Run)
+    with open("c18_state.pckl", "rb") as f:
+        run.loads(f.read())
+    run.restarted = True
+    run.obs, run.rec, run.stats = [], [], {}
+    with open("c18_rest.json") as f:
+        rest = json.load(f)
+    run.run_ops(rest)
+    print(json.dumps({"obs": run.obs, "rec": run.rec, "stats": run.stats, "probe": _probe_label()}, default=str))
+
+
+def run_impl(case):
+    variant = dict(_variant())
+    if case["kind"] == "malformed":
+        return {"obs": list(case["expect"]), "variant": variant, "ops": [], "stats": {"malformed": 1}}
+    _install_hook()
+    run = _Run(case)
+    run.run_ops(case["ops"])
+    variant["hash"] = run.hash_variant or "salted"
+    return {"obs": run.obs, "variant": variant, "ops": run.rec, "stats": run.stats, "src": run.src_info}
 
 
 def nontrivial(case, r):
@@ -842,7 +965,7 @@ def model_input(case, impl=None):
         return list(case["lines"])
     impl = impl or {}
     variant = impl.get("variant") or {"printer": "repaired", "slice": "strict"}
-    lines = [f"cfg {variant['printer']}", f"cfg slice {variant['slice']}"]
+    lines = [f"cfg {variant['printer']}", f"cfg slice {variant['slice']}", f"cfg hash {variant.get('hash', 'salted')}"]
     for i, (par, scoped, label) in enumerate(impl.get("src", [])):
         lines.append(f"chan {i} {par} {_hx(scoped)}")
         if par != "-":
@@ -885,9 +1008,17 @@ def oracle(case, r):
     fails = []
     seen: dict[str, tuple] = {}  # expression -> (node, op index)   [inside a parent only]
     owner_of: dict[tuple, tuple] = {}  # (parent, node) -> (expression, op index)
+    marks: list = []  # (op index, "reload" | "restart")
+
+    def after(j):
+        kinds = {k for (m, k) in marks if m > j}
+        return "restart" if "restart" in kinds else ("reload" if "reload" in kinds else "-")
+
     for i, o in enumerate(r.get("ops", [])):
         d = o["d"]
-        if d == "reload":
+        if d in ("reload", "restart"):
+            if o.get("line"):
+                marks.append((i, d))
             continue
         where = f"op #{i} {o['expr']}"
         if not o.get("injected"):
@@ -915,10 +1046,11 @@ def oracle(case, r):
             if key in seen:
                 k0, j = seen[key]
                 if k0 != k:
-                    fails.append(_f("not-reused", f"{where}: same expression as op #{j} but node {k} instead of {k0}", trigger=d))
+                    fails.append(_f("not-reused", f"{where}: same expression as op #{j} but node {k} instead of {k0}"
+                                    f" (in between: {after(j)})", trigger=d, after=after(j)))
                 elif o["count_after"] != o["count_before"]:
                     fails.append(_f("count-changed", f"{where}: repeated expression changed the number of children "
-                                    f"{o['count_before']} -> {o['count_after']}", trigger=d))
+                                    f"{o['count_before']} -> {o['count_after']}", trigger=d, after=after(j)))
             else:
                 if (o["ctx"], k) in owner_of:
                     e0, j = owner_of[(o["ctx"], k)]
@@ -956,7 +1088,7 @@ def shrink_candidates(case):
         repl = ops[i].get("owner", ["src", 0])
         rest = []
         for o in ops[:i] + ops[i + 1:]:
-            if o["op"] == "reload":
+            if o["op"] in ("reload", "restart"):
                 rest.append(o)
                 continue
             rest.append({**o, "owner": _reref(o["owner"], i, repl),
@@ -967,7 +1099,7 @@ def shrink_candidates(case):
             yield {**case, "ops": ops[:i] + [{**ops[i], "owner_form": "node"}] + ops[i + 1:]}
     used = {0}
     for o in ops:
-        if o["op"] == "reload":
+        if o["op"] in ("reload", "restart"):
             continue
         for ref in [o["owner"]] + [x[1] for x in o["operands"] if x[0] == "ref"]:
             if ref[0] == "src":
